@@ -13,6 +13,7 @@ listed entries as they are):
   map.R(T)            MapUnion<..u32 -> T..>              value: [1:v,2:v]
   wb(T) wt(T)         WithBot<T> / WithTop<T>             value: N | S<v>
   pr(A,B) dp(K,V)     Pair<A,B> / DomPair<K,V>            value: (a,b)
+  tr(A,B,C)           #[derive(Lattice)] struct with three fields   value: (a,b,c)
   vu(T)               VecUnion<T>                         value: <a,b,c>
 Ops:
   #case ...                     echoed
@@ -33,7 +34,7 @@ open HvLat
 inductive Desc where
   | maxN (bits : Nat) | minN (bits : Nat) | maxB | minB | unit | conflict
   | set (r : Char) | map (r : Char) (v : Desc) | withBot (t : Desc) | withTop (t : Desc)
-  | pair (a b : Desc) | domPair (k v : Desc) | vec (t : Desc)
+  | pair (a b : Desc) | domPair (k v : Desc) | vec (t : Desc) | tri (a b c : Desc)
 
 def Desc.ty : Desc → LTy
   | .maxN b => .maxN (2 ^ b - 1)
@@ -49,6 +50,7 @@ def Desc.ty : Desc → LTy
   | .pair a b => .pair a.ty b.ty
   | .domPair a b => .domPair a.ty b.ty
   | .vec t => .vec t.ty
+  | .tri a b c => .tri a.ty b.ty c.ty
 
 abbrev P (α : Type) := List Char → Option (α × List Char)
 
@@ -98,6 +100,14 @@ partial def pDesc : P Desc := fun cs =>
   | 'v' :: 'u' :: '(' :: _ => un "vu(" .vec
   | 'p' :: 'r' :: '(' :: _ => bin "pr(" .pair
   | 'd' :: 'p' :: '(' :: _ => bin "dp(" .domPair
+  | 't' :: 'r' :: '(' :: r => do
+    let (a, r) ← pDesc r
+    let (_, r) ← pChar ',' r
+    let (b, r) ← pDesc r
+    let (_, r) ← pChar ',' r
+    let (c, r) ← pDesc r
+    let (_, r) ← pChar ')' r
+    pure (.tri a b c, r)
   | _ => none
 
 /-- items separated by `,` up to the closing character (which is consumed) -/
@@ -169,6 +179,15 @@ partial def pVal : (d : Desc) → P (Val d.ty)
   | .vec t => fun cs => do
     let (_, r) ← pChar '<' cs
     pSep (pVal t) '>' r
+  | .tri a b c => fun cs => do
+    let (_, r) ← pChar '(' cs
+    let (x, r) ← pVal a r
+    let (_, r) ← pChar ',' r
+    let (y, r) ← pVal b r
+    let (_, r) ← pChar ',' r
+    let (z, r) ← pVal c r
+    let (_, r) ← pChar ')' r
+    pure ((x, y, z), r)
 
 def full (p : P α) (s : String) : Option α :=
   match p s.toList with
@@ -194,6 +213,8 @@ def showVal : (t : LTy) → Val t → String
   | .pair a b, (p : Val a × Val b) => "(" ++ showVal a p.1 ++ "," ++ showVal b p.2 ++ ")"
   | .domPair a b, (p : Val a × Val b) => "(" ++ showVal a p.1 ++ "," ++ showVal b p.2 ++ ")"
   | .vec t, (l : List (Val t)) => "<" ++ ",".intercalate (l.map (showVal t)) ++ ">"
+  | .tri a b c, (p : Val a × Val b × Val c) =>
+    "(" ++ showVal a p.1 ++ "," ++ showVal b p.2.1 ++ "," ++ showVal c p.2.2 ++ ")"
 
 def showBool (b : Bool) : String := if b then "true" else "false"
 
